@@ -36,8 +36,9 @@ CLAIMS = {
  "C12": dict(
     category="proof",
     text=("Proved in Lean: the five validity checks stated outright (flow_valid_iff, br_valid_iff, hs_valid_iff, iso_valid_iff, sys_valid_iff: accepted iff each clause holds; NaN is accepted), and "
-          "for every operation between 'accepted' and 'enforced' that can panic in Rust (modelled as Except Panic): br_counter_constructible (every accepted breaker rule has a constructible "
-          "counter window), throttling_new_total (the two try_into().unwrap() for all u32 ms values), cold_eff_ge_two and warmup_tokens_total (warm-up token arithmetic for any saturated casts), "
+          "for every operation between 'accepted' and 'enforced' that can panic or fail in Rust (modelled as Except): br_counter_constructible (every accepted breaker rule has a constructible "
+          "counter window), flow_stat_total (generate_stat_for yields a statistic for every interval: when the global window cannot be reused the private array and its reader are "
+          "constructible, flowSampleCount_divides) with flow_stat_is_world_stat / flow_stat_matches_world (it is the statistic the entry-level model of C01 works with), throttling_new_total (the two try_into().unwrap() for all u32 ms values), cold_eff_ge_two and warmup_tokens_total (warm-up token arithmetic for any saturated casts), "
           "arg_index_total (args[idx] never out of bounds for any index and list; argAt_eq_model ties it to the hotspot model), assoc_node_total, conc_counter_total, and the poisoning layer "
           "(no_panic_no_poison, later_calls_work by induction over any call sequence, panic_poisons). Tie: is_valid() of all five families is compared with the model on the exhaustive enum cross "
           "product x boundary grids; the no-panic/no-hang/still-healthy Spec is evaluated on the real code in one child process per case (catch_unwind, 10 s limit, health probe of all five managers). "
